@@ -257,6 +257,7 @@ PROPS['C10'] = dict(
     level_note='Exact reals; shapes, operations and sequence length enumerated to the bound, scalars symbolic (zero included via solver forks); trusted: g++, libz3, sym.h/harness.h, invariant predicate in C10_invariants.cpp.')
 
 _ARCH = ['-DSYMT_STRICT', '-DSYMT_POISON_DEFAULT', '-DSYMT_POISON_MOVED']
+_ARCH_T = ['-DSYMT_STRICT', '-DSYMT_POISON_DEFAULT', '-DSYMT_TRIVIAL']
 PROPS['C19'] = dict(
     engine='A', technique='archetype instantiation: every core template and the generic interpolate are compiled and symbolically executed with a scalar type offering ONLY the documented operations (default-constructed values are arbitrary, not zero); obligations of C01-C08, C12, C15 re-proved with it',
     compile_failure_is_violation=True,
@@ -268,11 +269,17 @@ PROPS['C19'] = dict(
         dict(name='C19_grids', src='C08_grids.cpp', pre_includes=['symt/stub'], defs=dict(quick=_ARCH + ['-DMAXN=3'], thorough=_ARCH + ['-DMAXN=4']), functions=['integration::integrate<n>', 'SplineOperator<T,order>', 'BSplineGenerator(knots, grid)']),
         dict(name='C19_interp', src='C12_interp.cpp', defs=dict(quick=_ARCH + ['-DMAXO=3', '-DMAXNODES=3', '-DFULLSEQ_MAXO=2'], thorough=_ARCH + ['-DMAXO=4', '-DMAXNODES=4', '-DFULLSEQ_MAXO=3']), functions=['interpolation::interpolate<T,order,Solver>']),
         dict(name='C19_predicates', src='C15_predicates.cpp', defs=dict(quick=_ARCH + ['-DMAXN=3', '-DMAXO=1'], thorough=_ARCH + ['-DMAXN=4', '-DMAXO=2']), functions=['Spline::isZero', 'Spline::operator==', 'Spline::checkOverlap']),
+        # second archetype flavour: a trivially copyable scalar whose all-zero bytes are not the number zero (sym.h, -DSYMT_TRIVIAL)
+        dict(name='C19_arith_trivial', src='C03_arith.cpp', defs=dict(quick=_ARCH_T + ['-DMAXN=4', '-DMAXO=1', '-DLCN=3'], thorough=_ARCH_T + ['-DMAXN=5', '-DMAXO=2', '-DLCN=4']), functions=['Spline arithmetic, linearCombination (trivially copyable scalar)']),
+        dict(name='C19_eval_trivial', src='C02_eval.cpp', defs=dict(quick=_ARCH_T + ['-DMAXN=3', '-DMAXO=2', '-DHISTN=2'], thorough=_ARCH_T + ['-DMAXN=4', '-DMAXO=3', '-DHISTN=3']), functions=['Spline::operator() (trivially copyable scalar)']),
+        dict(name='C19_primops_trivial', src='C04_primops.cpp', defs=dict(quick=_ARCH_T + ['-DMAXN=3', '-DMAXO=2', '-DMAXD=3'], thorough=_ARCH_T + ['-DMAXN=4', '-DMAXO=3', '-DMAXD=4']), functions=['Derivative<n>, Position<n> (trivially copyable scalar)']),
+        dict(name='C19_generator_trivial', src='C01_generator.cpp', chunk=1, defs=dict(quick=_ARCH_T + ['-DMAXP=2', '-DEXTRA=2'], thorough=_ARCH_T + ['-DMAXP=3', '-DEXTRA=3']), functions=['BSplineGenerator<T> (trivially copyable scalar)']),
+        dict(name='C19_interp_trivial', src='C12_interp.cpp', defs=dict(quick=_ARCH_T + ['-DMAXO=3', '-DMAXNODES=3', '-DFULLSEQ_MAXO=2'], thorough=_ARCH_T + ['-DMAXO=4', '-DMAXNODES=4', '-DFULLSEQ_MAXO=2']), functions=['interpolate<T,order,Solver> (trivially copyable scalar)']),
         dict(name='C19_instantiate', src='C19_instantiate.cpp', defs=dict(quick=_ARCH, thorough=_ARCH), functions=['explicit instantiation of Grid<T>, Support<T>, Spline<T,0..3>, BSplineGenerator<T>, SplineOperator<T,1>, ScalarMultiplication, OperatorSum, OperatorProduct, BilinearForm, LinearForm']),
     ],
     generated=[dict(mode='c06', ntu=4, template=dict(defs=dict(quick=_ARCH + ['-DMAXN=3', '-DMAXO=2', '-DFO=1'], thorough=_ARCH + ['-DMAXN=4', '-DMAXO=3', '-DFO=1']), functions=['BilinearForm<O1,O2>', 'compound/scalar operators'])),
                dict(mode='c07', ntu=4, template=dict(defs=dict(quick=_ARCH + ['-DMAXN=3', '-DMAXO=2', '-DFO=1'], thorough=_ARCH + ['-DMAXN=4', '-DMAXO=3', '-DFO=1']), functions=['LinearForm<O>']))],
-    bounds=dict(quick='the harnesses of C01 (p<=2, m<=p+3), C02, C03, C04, C06, C07, C08, C12, C15 at reduced bounds plus an explicit-instantiation unit, all built with -DSYMT_STRICT -DSYMT_POISON_DEFAULT: no abs/fabs, no numeric_limits specialisation, construction from integral types only (explicit), copy-only, default-constructed value = arbitrary number; a moved-from scalar is an arbitrary number too (-DSYMT_POISON_MOVED)',
+    bounds=dict(quick='the harnesses of C01 (p<=2, m<=p+3), C02, C03, C04, C06, C07, C08, C12, C15 at reduced bounds plus an explicit-instantiation unit, all built with -DSYMT_STRICT -DSYMT_POISON_DEFAULT: no abs/fabs, no numeric_limits specialisation, construction from integral types only (explicit), copy-only, default-constructed value = arbitrary number; a moved-from scalar is an arbitrary number too (-DSYMT_POISON_MOVED); the harnesses of C01-C04 and C12 again with a trivially copyable scalar whose all-zero bytes denote an arbitrary number (-DSYMT_TRIVIAL)',
                 thorough='the same harnesses at the quick bounds of their own properties'),
     outside='scalar types with additional quirks (non-commutative multiplication, throwing operations); streaming is not offered by the archetype, so any use is a compile error; the bundled Eigen/Armadillo adapters (need a numeric type those libraries accept)',
     assumptions=['the archetype sym::Real (strict build) offers exactly the documented operations', 'exact real arithmetic'],
